@@ -347,7 +347,7 @@ pub fn op_is_safe(sc: &Scenario, m: Option<&Model>, op: &Op) -> bool {
 
 pub fn offsets_ok(doff: usize, eoff: usize) -> bool {
     let (lo, hi) = if doff < eoff { (doff, eoff) } else { (eoff, doff) };
-    hi - lo >= 8 && hi <= 30000
+    hi - lo >= 8 && hi <= 200_000
 }
 
 // ---------------------------------------------------------------------------------------------
